@@ -25,7 +25,7 @@ META = {
 }
 
 DERIVE = ["copy", "add_record", "constructor", "update", "add_bundle_doc", "unified", "unified_bundle", "flattened", "json", "xml", "rdf"]
-MUTATE = ["add_attrs", "add_record", "add_ns", "set_default", "add_bundle", "set_time", "add_type"]
+MUTATE = ["add_attrs", "add_record", "add_ns", "set_default", "add_bundle", "set_time", "add_type", "conv", "add_attrs_new_ns"]
 
 
 def observe(obj):
@@ -51,8 +51,24 @@ def mutate(g, w, b, c, rec_handles):
     obj = w.conts[c]
     m = r.choice(MUTATE)
     recs = obj.records
-    if m in ("add_attrs", "set_time", "add_type") and not recs:
+    if m in ("add_attrs", "set_time", "add_type", "conv", "add_attrs_new_ns") and not recs:
         m = "add_record"
+    if m == "add_attrs_new_ns":
+        # through a record, with a name from a namespace nobody has registered yet: whoever owns the record gains it
+        h = w.rec_at(c, r.randrange(len(recs)))
+        w.add_attrs(h, [(QualifiedName(Namespace("newns%d" % r.randint(0, 9), "http://mutation/new%d/" % r.randint(0, 99)), "p"), "mutated")])
+        return m
+    if m == "conv":
+        # a convenience method of an element creates a relation in the container the element belongs to
+        from ..docgen import CONV
+        elems = [i for i, x in enumerate(recs) if x.get_type().localpart in CONV]
+        if not elems:
+            return mutate_fallback(g, w, c)
+        i = r.choice(elems)
+        h = w.rec_at(c, i)
+        mname, _k = r.choice(CONV[recs[i].get_type().localpart])
+        w.conv(h, mname, [QualifiedName(Namespace("mut", "http://mutation/"), "other%d" % r.randint(0, 9))], None)
+        return m
     if m == "add_attrs":
         h = w.rec_at(c, r.randrange(len(recs)))
         w.add_attrs(h, [(existing_or_new_name(g, w.recs[h]), "mutated-%d" % r.randint(0, 99))])
@@ -159,6 +175,15 @@ def make_case(ctx, g):
     b = DocBuilder(g, w, repeat_id=0.25, malformed=0.0)
     d, scopes = b.random_document(n_records=g.rng.randint(1, 5))
     how = g.choice(DERIVE)
+    if how in ("unified", "unified_bundle", "flattened", "update", "constructor") and g.chance(0.5):
+        # make sure something is really merged: the same identifier once more, same kind, one more attribute
+        for c in all_containers(w, [d]):
+            els = [x for x in w.conts[c].records if x.is_element()]
+            if els and g.chance(0.7):
+                x = g.choice(els)
+                w.new_record(c, x.get_type().localpart, x.identifier,
+                             [(QualifiedName(Namespace("ex", "http://example.org/"), "again"), g.rng.randint(0, 9))])
+                ctx.count("duplicate-injected")
     res = derive(g, w, b, d, how)
     ctx.evaluations += 1
     if res is None:
